@@ -953,6 +953,9 @@ void apply_logic_net(bool const *inp, {BITS_TO_DTYPE[32]} *out, size_t len) {{
 
     def compile(self, opt_level: int = 1, save_lib_path: str = None, verbose: bool = False):
         """Compile the network to a shared library."""
+        if self.model is None:
+            # a handle returned by load() has no model: generating code from it would yield an empty logic_net
+            raise ValueError("This CompiledLogicNet was loaded from a library and has no model to compile.")
         with tempfile.NamedTemporaryFile(suffix=".so") as lib_file:
             with tempfile.NamedTemporaryFile(mode="w", suffix=".c") as c_file:
                 code = self.get_c_code()
